@@ -659,9 +659,11 @@ class AsyncFIXConnection:
 
         await self.disconnect(dstate)
 
-    async def _send_replay(self, msg: FIXMessage):
+    async def _send_replay(self, msg: FIXMessage, encoding: str = "utf-8"):
         """Sends retransmission / gap fill (keeps seq counter and journal intact)."""
-        encoded_msg = self._codec.encode(msg, self._session).encode("utf-8")
+        encoded_msg = self._codec.encode(msg, self._session, encoding=encoding).encode(
+            encoding
+        )
         self._socket_writer.write(encoded_msg)
         await self._socket_writer.drain()
 
@@ -740,7 +742,9 @@ class AsyncFIXConnection:
                 del replay_msg[FTag.SenderCompID]
                 del replay_msg[FTag.TargetCompID]
                 del replay_msg[FTag.CheckSum]
-                await self._send_replay(replay_msg)
+                # journaled bytes were decoded one char per byte (latin-1): the same
+                #   charset gives the original bytes back (utf-8 would encode them twice)
+                await self._send_replay(replay_msg, encoding="latin-1")
 
                 gap_fill_begin = msg_seq_num + 1
 
